@@ -36,9 +36,14 @@ Proof.
   intros H1 Hs.
   unfold gen_swave, gen_swave_eq, envS, envE. denC_simplR. lift_R. norm_args s m m.
   set (Q := q2R s m m).
-  destruct (Rlt_dec Q 0) as [HQ|HQ]; [|apply Rnot_lt_le in HQ]; decide_rels; resolve_if.
+  destruct (Rtotal_order Q 0) as [HQ|[HQ|HQ]]; decide_rels; resolve_if.
   - replace (- (4 * Q))%R with (4 * - Q)%R by ring.
     rewrite ?(Csqrt_nonneg (4 * - Q)), ?(Csqrt_nonneg (- Q)) by lra. rewrite ?sqrt_4x by lra.
+    bridge_finish. bridge_logs. bridge_close m.
+  - (* q^2 = 0 (threshold): whichever branch a non-strict variant of the condition selects is 0 *)
+    replace (- (4 * Q))%R with (4 * - Q)%R by ring.
+    rewrite ?(Csqrt_nonneg (4 * - Q)), ?(Csqrt_nonneg (- Q)), ?(Csqrt_nonneg (4 * Q)), ?(Csqrt_nonneg Q) by lra.
+    rewrite ?sqrt_4x by lra. replace (- Q)%R with Q by lra. 
     bridge_finish. bridge_logs. bridge_close m.
   - rewrite ?(Csqrt_nonneg (4 * Q)), ?(Csqrt_nonneg Q) by lra. rewrite ?sqrt_4x by lra.
     bridge_finish. bridge_logs. bridge_close m.
